@@ -87,10 +87,9 @@ func iface2str(iface *any) (b []byte) {
 	case any:
 		return []byte(fmt.Sprintf("%v%s", v, utils.NewLineString))
 
-		//default:
-		//	return []byte(fmt.Sprintf("%v%s", v, utils.NewLineString))
 	default:
-		panic(fmt.Sprintf("cannot marshal %T", v))
+		// a nil interface (eg JSON null) doesn't match `case any`
+		return []byte(fmt.Sprintf("%v%s", v, utils.NewLineString))
 	}
 }
 
